@@ -202,8 +202,8 @@ theorem itemTicks_ticks : ∀ (a b : List Item) (st st' : TS), a.all isTick = tr
 
 /-! ### Effect of `Reader.post` -/
 
-theorem post_tickSkip (cfg : Cfg) (rd : Reader) (dt : Int) :
-    rd.post cfg (.tickSkip dt) =
+theorem post_tickSkip (rd : Reader) (dt : Int) :
+    rd.post (.tickSkip dt) =
       if rd.tick + 1 > i32Max ∨ rd.tick + 1 + dt > i32Max then .err .tickOverflow rd
       else if rd.inTick then
         .item (.tickEnd rd.tick) { rd with tick := rd.tick + 1 + dt, prevCid := none, inTick := false }
@@ -214,8 +214,8 @@ theorem post_tickSkip (cfg : Cfg) (rd : Reader) (dt : Int) :
 
 /-- A reported item other than a tick mark leaves the tick state alone and records the client id
 of a player record. -/
-theorem post_item_facts {cfg : Cfg} {rd rd' : Reader} {it : FItem} {out : Item}
-    (h : rd.post cfg it = .item out rd') (hr : ∀ dt, it ≠ .tickSkip dt) :
+theorem post_item_facts {rd rd' : Reader} {it : FItem} {out : Item}
+    (h : rd.post it = .item out rd') (hr : ∀ dt, it ≠ .tickSkip dt) :
     isTick out = false ∧ rd'.tick = rd.tick ∧ rd'.inTick = rd.inTick ∧
     rd'.prevCid = (match msgKind it with | .player c => some c | _ => rd.prevCid) := by
   unfold Reader.post at h
@@ -341,7 +341,7 @@ theorem interp_ticks (cfg : Cfg) : ∀ (rs : List Rec) (t : Tail) (rd : Reader) 
         | finish =>
           rw [hm] at hcls
           obtain ⟨hk, hi⟩ := hcls
-          obtain ⟨rd3, hpost⟩ := post_finish cfg rd2
+          obtain ⟨rd3, hpost⟩ := post_finish rd2
           rw [hi, hpost]
           simp only [docItemTicks, List.map_nil]
           exact ⟨st1, hrun1, fun _ => hfin hk, by simp [hit0], fun _ => hit0⟩
@@ -409,7 +409,7 @@ theorem interp_ticks (cfg : Cfg) : ∀ (rs : List Rec) (t : Tail) (rd : Reader) 
               rw [hpv] at h2
               by_cases h : c ≤ ic <;> simp [prevGe, h] at h2 ⊢ <;> simp [h2]
           simp only [hdocl, List.map_cons]
-          cases hpost : rd2.post cfg r.item with
+          cases hpost : rd2.post r.item with
           | finished rd3 => exact ⟨st1, hrun1, fun _ => by
               -- a player record never finishes the stream
               exfalso
@@ -422,7 +422,6 @@ theorem interp_ticks (cfg : Cfg) : ∀ (rs : List Rec) (t : Tail) (rd : Reader) 
               cases hi : r.item <;> rw [hi] at hpost hm <;> simp [msgKind] at hm <;>
                 (simp only [FItem.cid] at hpost; repeat' split at hpost) <;> simp at hpost⟩
           | err e rd3 => exact ⟨st1, hrun1, by simp, by simp [hit0], by simp⟩
-          | oom rd3 => exact ⟨st1, hrun1, by simp, by simp [hit0], by simp⟩
           | item out rd3 =>
             obtain ⟨hnt, ht3, hin3, hp3⟩ := post_item_facts hpost hnts
             rw [hm] at hp3
@@ -450,14 +449,13 @@ theorem interp_ticks (cfg : Cfg) : ∀ (rs : List Rec) (t : Tail) (rd : Reader) 
           have hg : kindPrevGe rd r.kind = false := by simp [kindPrevGe, hkc]
           simp only [docState, hg, Bool.false_eq_true, if_false, Int.add_zero, Prod.mk.injEq] at hdoc
           simp only [docItemTicks, List.map_cons]
-          cases hpost : rd2.post cfg r.item with
+          cases hpost : rd2.post r.item with
           | finished rd3 =>
             exfalso
             unfold Reader.post at hpost
             cases hi : r.item <;> rw [hi] at hpost hm <;> simp [msgKind] at hm <;>
               (simp only [FItem.cid] at hpost; repeat' split at hpost) <;> simp at hpost
           | err e rd3 => exact ⟨st1, hrun1, by simp, by simp [hit0], by simp⟩
-          | oom rd3 => exact ⟨st1, hrun1, by simp, by simp [hit0], by simp⟩
           | item out rd3 =>
             obtain ⟨hnt, ht3, hin3, hp3⟩ := post_item_facts hpost hnts
             rw [hm] at hp3
